@@ -1,7 +1,7 @@
 SPECIFICATION Spec
-CONSTANTS MaxPages = 4
+CONSTANTS MaxPages = 6
  EndAt = "data"
- Lens = {1,2,4}
+ Lens = {1,4}
  Chunk = 4
  Read = 2
  BackUpRule = "begin"
